@@ -1232,6 +1232,16 @@ def residual_cases(b, base, sink):
     progs["sel_operator_second_statement"] = aus + 'Binde eins aus "resop" ein.\nBinde betrag_text aus "resop" ein.\neins.\nSchreibe (der Betrag von "Hallo") auf eine Zeile.\n'
     open(os.path.join(d, "resop.ddp"), "w").write(aus + 'Die öffentliche Funktion eins gibt nichts zurück, macht:\n\tSchreibe "eins" auf eine Zeile.\nUnd kann so benutzt werden:\n\t"eins"\n'
         'Die öffentliche Funktion betrag_text mit dem Parameter t vom Typ Text, gibt eine Zahl zurück, macht:\n\tGib die Länge von t plus 1 zurück.\nUnd überlädt den "Betrag" Operator.\n')
+    # one generic function instantiated in one module with two same-named public types of two different modules
+    punkt = ('Wir nennen die öffentliche Kombination aus\n\tder öffentlichen Zahl x mit Standardwert 1,\n%seinen %s, und erstellen sie so:\n\t"%s"\n')
+    zeige = ('Die öffentliche generische Funktion zeige mit dem Parameter a vom Typ T, gibt eine Zahl zurück, macht:\n\tGib 7 zurück.\n'
+             'Und kann so benutzt werden:\n\t"zeige <a>"\n')
+    open(os.path.join(d, "resma.ddp"), "w").write(punkt % ("", "Punkt", "ein A-Punkt") + zeige)
+    for fn, ty in (("resmb", "Punkt"), ("resmc", "Kreis")):
+        open(os.path.join(d, fn + ".ddp"), "w").write(punkt % ("\tder öffentlichen Zahl y mit Standardwert 3,\n", ty, "ein B-Ding") +
+            'Die öffentliche Funktion mach_b gibt einen %s zurück, macht:\n\tGib ein B-Ding zurück.\nUnd kann so benutzt werden:\n\t"mach b"\n' % ty)
+    for n, fn in (("inst_same_named_types", "resmb"), ("inst_control_distinct_names", "resmc")):
+        progs[n] = aus + 'Binde "resma" ein.\nBinde mach_b aus "%s" ein.\nDer Punkt p ist ein A-Punkt.\nSchreibe (zeige p) auf eine Zeile.\nSchreibe (zeige (mach b)) auf eine Zeile.\n' % fn
     open(os.path.join(d, "a.ddp"), "w").write(RES_A)
     open(os.path.join(d, "resg.ddp"), "w").write(aus + gen_decl)
     open(os.path.join(d, "resg2.ddp"), "w").write(aus + gen_decl + 'Die öffentliche Funktion h gibt nichts zurück, macht:\n\tzeige 1.\nUnd kann so benutzt werden:\n\t"h"\n')
@@ -1248,8 +1258,15 @@ def residual_cases(b, base, sink):
     for n, stage, msg, lines in vlib.pmap(work, sorted(progs)):
         out[n] = stage
         rep = dict(files={"a.ddp": RES_A, n + ".ddp": progs[n]}, how="kddp kompiliere %s.ddp, link, run" % n, output=lines, compiler_output=msg[-600:])
-        kind = "forward-declared-import" if n.startswith("fwd") else "selective-import-operator" if n.startswith("sel") else "generic-function-import"
-        ctl = "-control" if n in ("fwd_call_after_def", "gen_control") else ""
+        kind = ("forward-declared-import" if n.startswith("fwd") else "selective-import-operator" if n.startswith("sel")
+                else "generic-instantiation-same-named-types" if n.startswith("inst") else "generic-function-import")
+        ctl = "-control" if n in ("fwd_call_after_def", "gen_control", "inst_control_distinct_names") else ""
+        if n.startswith("inst"):
+            if stage != "ran":
+                sink.violation("residual %s%s no-executable" % (kind, ctl), "%s: the frontend accepts, no executable (%s): %s" % (n, stage, msg.strip().splitlines()[0][:300] if msg.strip() else ""), rep)
+            elif lines != ["7", "7"]:
+                sink.violation("residual %s%s wrong-output" % (kind, ctl), "%s prints %s, expected ['7', '7']" % (n, lines), rep)
+            continue
         if stage != "ran":
             internal = "Unerwarteter Fehler" in msg or "StackTrace" in msg or "ParserError" in msg or "CompilerError" in msg
             sink.violation("residual %s%s %s" % (kind, ctl, "internal-error" if internal else "rejected"),
@@ -1473,7 +1490,7 @@ def main():
     b = Build()
     ck.cov["trusted_base"] = vlib.TRUSTED_COMMON + [
         "module summaries: a module is abstracted to its imports, declarations (kind, name, visibility), uses, marker statements, Wiederhole/Wenn blocks and function bodies; paths are numbers; the directory walk order of filepath.WalkDir is re-implemented in the check (lexical order) and given to the model as data",
-        "outside the model's statement language, run on every pass and judged strictly by the oracle (leg 'residual', seven programs): an import statement inside a generic function body and inside the definition (FuncDef) of a forward-declared function",
+        "outside the model's statement language, run on every pass and judged strictly by the oracle (leg 'residual'): an import statement inside a generic function body and inside the definition (FuncDef) of a forward-declared function",
         "the model computes a module's public interface from its own declarations only (cases where a non-root module declares a name it also imports are judged against the property but not compared with the model); calls out of function bodies are not expanded by the model (the generator never nests calls); imports of Duden modules are outside the model",
         "numeric diagnostic codes are re-read from src/ddperror/codes.go on every run; only the class (include / undefined / already defined / alias / other, 'refused' for a use) per statement is compared, never the wording",
         "sha256 (module hash in mangled names) is a section variable of Mod/Mangle.v, assumed injective on the module names of one compilation",
